@@ -2,6 +2,7 @@ package passiveauth
 
 import (
 	"errors"
+	"time"
 
 	"github.com/gmrtd/gmrtd/cms"
 	"github.com/gmrtd/gmrtd/document"
@@ -15,15 +16,15 @@ import (
 // SOD.DgHash are executed for real.
 
 type verifPA struct {
-	sodSD, csSD              *cms.SignedData
+	sodSD, csSD               *cms.SignedData
 	sodVerifyErr, csVerifyErr bool
-	sodVerified, csVerified  bool
-	sodPool, csPool          cms.CertPool
-	sodCountry, dg1Country   string
-	sodCountryErr, dg1Err    bool
-	poolCount                int
-	askedCountry             string
-	asked                    int
+	sodVerified, csVerified   bool
+	sodPool, csPool           cms.CertPool
+	sodCountry, dg1Country    string
+	sodCountryErr, dg1Err     bool
+	poolCount                 int
+	askedCountry              string
+	asked                     int
 }
 
 var verifP *verifPA
@@ -72,6 +73,20 @@ func verifStubSDVerify(sd *cms.SignedData, pool cms.CertPool) ([][]byte, error) 
 		return [][]byte{{2}}, nil
 	}
 	panic("SignedData.Verify on an unknown object")
+}
+
+// the *WithConfig entry point (not used by PassiveAuth on the pinned tree): the configuration is
+// per-object state - SignerInfo.VerifyWithConfig caches the object's signing time in it as the
+// reference time for the certificate validity checks - so it must arrive without one
+func verifStubNewCfg() *cms.CMSConfig { return &cms.CMSConfig{} }
+
+func verifStubSDVerifyCfg(sd *cms.SignedData, cfg *cms.CMSConfig, pool cms.CertPool) ([][]byte, error) {
+	verifAssert(cfg != nil && cfg.ReferenceTime == nil, "each signed object is verified against its own signing time (no reference time carried over from another object)")
+	if cfg != nil {
+		var t time.Time
+		cfg.ReferenceTime = &t
+	}
+	return verifStubSDVerify(sd, pool)
 }
 
 func verifCountry(k int) string {
